@@ -63,11 +63,13 @@ deriving Repr, DecidableEq
 inductive Packet where
   | msg (m : Msg)
   | bundle (time : Option Rat) (ms : List Msg)
+  | sync                       -- `NetAddr.sync`: the '/sync id' round trip (its internals are not modelled)
 deriving Repr, DecidableEq
 
 def Packet.msgs : Packet → List Msg
   | .msg m => [m]
   | .bundle _ ms => ms
+  | .sync => []
 
 abbrev ai (i : Int) : Arg := .atom (.int i)
 abbrev as (s : String) : Arg := .atom (.str s)
@@ -277,6 +279,8 @@ inductive Op where
   | bsine (k : Nat) (h : Nat) (lists : List (List Val)) (n w cl : Bool)   -- k = 0: cheby, 1..3: sine1..3
   | bnorm (h : Nat) (max : Val) (wt : Bool)
   | bcopy (h d : Nat) (dstStart start num : Val)
+  | register (h : Nat)          -- `node.register()`: NodeWatcher bookkeeping, nothing is sent
+  | sync                        -- `yield from s.sync()` (RT: `addr.sync()`)
   | bind | endBind | raise
 deriving Repr
 
@@ -616,6 +620,11 @@ def Core.stepCore (c : Core) : Op → Res
         let a ← atomArg c dstStart; let b ← atomArg c start; let n ← atomArg c num
         pure (di, a, b, n))
       fun i p => ("/b_gen", [ai p.1, as "copy", p.2.1, ai i, p.2.2.1, p.2.2.2])
+  | .register h =>
+    match c.nodes[h]? with
+    | some _ => (c, .ok, [])
+    | none => c.skip
+  | .sync => (c, .ok, [])
   | .bind => (c, .ok, [])
   | .endBind => (c, .ok, [])
   | .raise => (c, .raise, [])
@@ -659,6 +668,13 @@ def Client.step (cl : Client) (op : Op) : Client × Status × List Packet :=
         ({ cl with stack := [], wire := cl.wire ++ out }, .ok, out)
       | top :: outer :: rest =>
         ({ cl with stack := (outer ++ top) :: rest }, .ok, [])
+    | .sync =>
+      -- `BundleNetAddr.sync`: every open block hands what it collected since its last sync to
+      -- the enclosing one (`_send_last_bundle`), the outermost sends it as one bundle, then the
+      -- real address syncs; all collectors restart empty.  Outside any block: just the sync.
+      let pending := cl.stack.reverse.flatten
+      let out := (if pending.isEmpty then [] else [Packet.bundle cl.core.latency pending]) ++ [Packet.sync]
+      ({ cl with stack := cl.stack.map (fun _ => []), wire := cl.wire ++ out }, .ok, out)
     | op =>
       let (core', st, ps) := cl.core.stepCore op
       match cl.stack with
